@@ -27,58 +27,32 @@ open KV KV.Perm KV.Com
 
 /-! ## (a) permission checker versus applier -/
 
-/-- The full-strength statement for one record ("alters only the parameter fields explicitly listed as
-    changeable … leaves every other field … unchanged"), over ALL current and incoming documents:
-    whenever the checker accepts, every field of the parameter's struct that is not on the allow-list
-    reads back, after the applier decoded the incoming document, exactly as the store held it.
-    `base` is what the destination held before decoding: the current record (top-level struct
-    parameter) or the zero record (element of an array parameter). -/
-def OnlyAllowedFields : Prop :=
-  ∀ (sch : Schema) (base : String → Json) (cur inc : Obj) (allow : List String),
-    (∀ k, base k = recOf cur k ∨ base k = .null) →
-    validate cur inc allow = true →
-    ∀ k, k ∈ sch.fields → k ∉ allow → applyRec sch base inc k = recOf cur k
-
-/-- witness: a pricefeed market whose `active` flag is false (so `omitempty` leaves it out of the
-    stored JSON) and a committee that may change only `oracles` -/
-def cexCur : Obj := [("market_id", .str "bnb:usd"), ("oracles", .arr [.str "kava1…"])]
-def cexInc : Obj := [("active", .bool true), ("market_id", .str "bnb:usd")]
-def cexSchema : Schema := { fields := ["market_id", "oracles", "active"], omitEmpty := fun _ => true }
-
-/-- C17_only_allowed_fields is FALSE on the code as it is: the checker compares only the keys of the
-    CURRENT document and the two lengths, so an incoming document may drop an allow-listed key and add a
-    key the current document omits (`omitempty`, currently empty); the applier then sets that unlisted field. -/
-theorem C17_only_allowed_fields_counterexample : ¬ OnlyAllowedFields := by
-  intro h
-  have hv : validate cexCur cexInc ["oracles"] = true := by decide
-  have := h cexSchema zeroRec cexCur cexInc ["oracles"] (fun _ => Or.inr rfl) hv "active"
-    (by simp [cexSchema]) (by simp)
-  simp [applyRec, recOf, KV.Perm.get, cexInc, cexCur, List.lookup] at this
-
-/-- The strongest true statement: a field not on the allow-list reads back unchanged if it is present
-    in the current document, or absent from the incoming one. (What can change besides allow-listed
-    fields is exactly: a field omitted from the current document and present in the incoming one.) -/
-theorem C17_only_allowed_fields_partial (sch : Schema) (base : String → Json) (cur inc : Obj)
+/-- "alters only the parameter fields explicitly listed as changeable … leaves every other field …
+    unchanged", for one record, over ALL current and incoming documents, schemas and allow-lists:
+    whenever the checker accepts, every field that is not on the allow-list reads back, after the applier
+    decoded the incoming document, exactly as the store held it. `base` is what the destination held
+    before decoding: the current record (top-level struct parameter) or the zero record (element of an
+    array parameter).
+    (History: false before fix 0a0bfec58 — an incoming document could drop an allow-listed key and add an
+    `omitempty` field the current document omits; see findings/C17-omitted-field-set.md.) -/
+theorem C17_only_allowed_fields (sch : Schema) (base : String → Json) (cur inc : Obj)
     (allow : List String) (hb : ∀ k, base k = recOf cur k ∨ base k = .null)
-    (h : validate cur inc allow = true) (k : String) (hk : k ∉ allow)
-    (hp : k ∈ keys cur ∨ inc.lookup k = none) :
+    (h : validate cur inc allow = true) (k : String) (hk : k ∉ allow) :
     applyRec sch base inc k = recOf cur k :=
-  single_protected sch base cur inc allow hb h k hk hp
+  single_protected sch base cur inc allow hb h k hk
 
-/-- In particular the full statement holds for every incoming document that introduces no key
-    (the condition the proposed patch adds to the checker). -/
-theorem C17_only_allowed_fields_closed_keys (sch : Schema) (base : String → Json) (cur inc : Obj)
-    (allow : List String) (hb : ∀ k, base k = recOf cur k ∨ base k = .null)
-    (h : validate cur inc allow = true) (hsub : ∀ k, k ∈ keys inc → k ∈ keys cur)
-    (k : String) (hk : k ∉ allow) : applyRec sch base inc k = recOf cur k := by
-  apply single_protected sch base cur inc allow hb h k hk
-  by_cases hm : k ∈ keys cur
-  · exact Or.inl hm
-  · exact Or.inr (lookup_none_of_not_mem_keys inc k (fun hi => hm (hsub k hi)))
+/-- …and the accepted document has exactly the keys of the current one (nothing added, nothing dropped). -/
+theorem C17_only_allowed_fields_same_keys (cur inc : Obj) (allow : List String)
+    (h : validate cur inc allow = true) :
+    cur.length = inc.length ∧ ∀ k, k ∈ keys inc → k ∈ keys cur :=
+  ⟨(validate_spec cur inc allow h).1, (validate_spec cur inc allow h).2.1⟩
 
-/-- non-vacuity: an accepted change of an allow-listed field, another field protected -/
+/-- non-vacuity: an accepted change of an allow-listed field; a protected change, a dropped allow-listed
+    key swapped for a new key (the former finding) and an extra key are refused -/
 example : validate [("a", .str "x"), ("b", .num "1")] [("a", .str "x"), ("b", .num "2")] ["b"] = true := by decide
 example : validate [("a", .str "x"), ("b", .num "1")] [("a", .str "y"), ("b", .num "1")] ["b"] = false := by decide
+example : validate [("market_id", .str "bnb:usd"), ("oracles", .arr [.str "kava1…"])]
+    [("active", .bool true), ("market_id", .str "bnb:usd")] ["oracles"] = false := by decide
 
 /-- Duplicate keys: the document the checker compares (and the one amino's `map[string]json.RawMessage`
     gives the applier) maps every key to its LAST occurrence in the raw text. -/
@@ -129,97 +103,37 @@ example : checkAgainst { subspace := "s", key := "k", single := ["b"], multi := 
     (some (.obj [("a", .str "x"), ("b", .num "1")]))
     (some (.obj [("a", .str "EVIL"), ("b", .num "2"), ("a", .str "x")])) = .yes := by decide
 
-/-- Multi-record parameters, per record: an accepted change has as many records as the current
-    value, and every current record is matched — by the first requirement it satisfies — to an incoming
-    record satisfying the same requirement, the pair obeying the single-record statement. -/
-theorem C17_only_allowed_fields_multi_partial (sch : Schema) (reqs : List Req) (cur inc : List Obj)
+/-- Multi-record parameters ("every current record matched by its requirement key to exactly one incoming
+    record, each pair satisfying the single-record statement, nothing added or removed"): an accepted
+    change has as many records as the current value, and the loop's assignment current ↦ incoming index
+    is one-to-one and ONTO the incoming records; each current record and its incoming record satisfy the
+    same requirement (the first one the current record satisfies) and obey the single-record statement.
+    (History: the matching was not one-to-one before fix 060540892; see findings/C17-record-replaced.md.) -/
+theorem C17_multi_bijection (sch : Schema) (reqs : List Req) (cur inc : List Obj)
     (h : allowsMulti reqs cur inc = true) :
     cur.length = inc.length ∧
-    ∀ c, c ∈ cur → ∃ r j i, r ∈ reqs ∧ matchIdx reqs inc c = some j ∧ inc[j]? = some i ∧
-      matchesReq c r = true ∧ matchesReq i r = true ∧
-      ∀ k, k ∉ r.allowed → (k ∈ keys c ∨ i.lookup k = none) → applyRec sch zeroRec i k = recOf c k := by
-  obtain ⟨hl, hall⟩ := allowsMulti_spec reqs cur inc h
-  refine ⟨hl, ?_⟩
-  intro c hc
-  obtain ⟨r, j, i, hr, hm, hg, m1, m2, hv⟩ := multiOne_matchIdx reqs inc c (hall c hc)
-  refine ⟨r, j, i, List.mem_of_find?_eq_some hr, hm, hg, m1, m2, ?_⟩
-  intro k hk hp
-  exact single_protected sch zeroRec c i r.allowed (fun _ => Or.inr rfl) hv k hk hp
+    ∃ idxs : List Nat, idxs.length = cur.length ∧ idxs.Nodup ∧ (∀ j, j < inc.length → j ∈ idxs) ∧
+      ∀ p, p ∈ cur.zip idxs → ∃ r i, r ∈ reqs ∧ inc[p.2]? = some i ∧
+        matchesReq p.1 r = true ∧ matchesReq i r = true ∧
+        ∀ k, k ∉ r.allowed → applyRec sch zeroRec i k = recOf p.1 k := by
+  obtain ⟨hl, idxs, ha⟩ := allowsMulti_spec reqs cur inc h
+  obtain ⟨hlen, hbound, hnd, hpairs⟩ := assign_spec reqs inc cur [] idxs ha
+  refine ⟨hl, idxs, hlen, hnd, ?_, ?_⟩
+  · exact pigeonhole inc.length idxs hnd (fun x hx => (hbound x hx).1) (by rw [hlen, hl])
+  · intro p hp
+    obtain ⟨r, v, hr, hv, hm, hval⟩ := hpairs p hp
+    refine ⟨r, v, List.mem_of_find?_eq_some hr, hv, List.find?_some hr, hm, ?_⟩
+    intro k hk
+    exact single_protected sch zeroRec p.1 v r.allowed (fun _ => Or.inr rfl) hval k hk
 
-/-- "every current record matched … to exactly one incoming record … nothing added or removed":
-    the matching current ↦ incoming index is a bijection. -/
-def MultiBijection : Prop :=
-  ∀ (reqs : List Req) (cur inc : List Obj), allowsMulti reqs cur inc = true →
-    ∀ j, j < inc.length → ∃ c, c ∈ cur ∧ matchIdx reqs inc c = some j
-
-/-- FALSE on the code as it is: two current records that satisfy the same requirement and agree
-    outside its allow-list are both matched to the FIRST such incoming record; the other incoming
-    record is then never looked at (a record replaced by an arbitrary one). -/
-theorem C17_multi_bijection_counterexample : ¬ MultiBijection := by
-  intro h
-  let reqs : List Req := [{ key := "denom", val := "bnb", allowed := ["type"] }]
-  let cur : List Obj := [[("denom", .str "bnb"), ("type", .str "a")], [("denom", .str "bnb"), ("type", .str "b")]]
-  let inc : List Obj := [[("denom", .str "bnb"), ("type", .str "a")], [("denom", .str "EVIL"), ("type", .str "z")]]
-  have hv : allowsMulti reqs cur inc = true := by decide
-  obtain ⟨c, hc, hm⟩ := h reqs cur inc hv 1 (by decide)
-  simp only [cur, List.mem_cons, List.not_mem_nil, or_false] at hc
-  rcases hc with rfl | rfl
-  · revert hm; decide
-  · revert hm; decide
-
-/-- two current records are distinguishable when some field present in both, protected under both
-    their requirements, differs -/
-def Distinguishable (reqs : List Req) (c1 c2 : Obj) : Prop :=
-  ∀ r1 r2, reqs.find? (matchesReq c1) = some r1 → reqs.find? (matchesReq c2) = some r2 →
-    ∃ k, k ∈ keys c1 ∧ k ∈ keys c2 ∧ k ∉ r1.allowed ∧ k ∉ r2.allowed ∧ get c1 k ≠ get c2 k
-
-/-- The strongest true statement: when the current records are pairwise distinguishable by a protected
-    field (e.g. a unique `type`/`denom` not on any allow-list), an accepted change matches the current
-    records one-to-one ONTO the incoming records: nothing is added, removed or replaced. -/
-theorem C17_multi_bijection_partial (reqs : List Req) (cur inc : List Obj)
-    (hd : cur.Pairwise (Distinguishable reqs)) (h : allowsMulti reqs cur inc = true) :
-    (cur.map (fun c => (matchIdx reqs inc c).getD 0)).Nodup ∧
-    ∀ j, j < inc.length → ∃ c, c ∈ cur ∧ matchIdx reqs inc c = some j := by
-  obtain ⟨hl, hall⟩ := allowsMulti_spec reqs cur inc h
-  have hidx : ∀ c, c ∈ cur → ∃ j, matchIdx reqs inc c = some j ∧ j < inc.length := by
-    intro c hc
-    obtain ⟨r, j, i, hr, hm, hg, _⟩ := multiOne_matchIdx reqs inc c (hall c hc)
-    refine ⟨j, hm, ?_⟩
-    by_cases hlt : j < inc.length
-    · exact hlt
-    · rw [List.getElem?_eq_none (by omega)] at hg; cases hg
-  have hnd : (cur.map (fun c => (matchIdx reqs inc c).getD 0)).Nodup := by
-    rw [List.Nodup, List.pairwise_map]
-    apply List.Pairwise.imp_of_mem _ hd
-    intro c1 c2 h1 h2 hdist e
-    obtain ⟨j1, hj1, _⟩ := hidx c1 h1
-    obtain ⟨j2, hj2, _⟩ := hidx c2 h2
-    rw [hj1, hj2] at e
-    simp only [Option.getD_some] at e
-    subst e
-    exact matchIdx_injective reqs inc c1 c2 (hall c1 h1) (hall c2 h2) j1 hj1 hj2 hdist
-  refine ⟨hnd, ?_⟩
-  intro j hj
-  have hmem := pigeonhole inc.length (cur.map (fun c => (matchIdx reqs inc c).getD 0)) hnd
-    (by
-      intro x hx
-      simp only [List.mem_map] at hx
-      obtain ⟨c, hc, rfl⟩ := hx
-      obtain ⟨j', hj', hlt⟩ := hidx c hc
-      rw [hj']; exact hlt)
-    (by rw [List.length_map]; exact hl) j hj
-  simp only [List.mem_map] at hmem
-  obtain ⟨c, hc, hcj⟩ := hmem
-  obtain ⟨j', hj', _⟩ := hidx c hc
-  rw [hj'] at hcj
-  simp only [Option.getD_some] at hcj
-  subst hcj
-  exact ⟨c, hc, hj'⟩
-
-/-- non-vacuity: a reordered, accepted two-record change with distinguishable records -/
+/-- non-vacuity: a reordered two-record change is accepted; the former finding (two current records of
+    the same requirement, second incoming record arbitrary) is refused -/
 example : allowsMulti [{ key := "type", val := "a", allowed := ["fee"] }, { key := "type", val := "b", allowed := [] }]
     [[("fee", .str "1"), ("type", .str "a")], [("fee", .str "2"), ("type", .str "b")]]
     [[("fee", .str "2"), ("type", .str "b")], [("fee", .str "9"), ("type", .str "a")]] = true := by decide
+example : allowsMulti [{ key := "denom", val := "bnb", allowed := ["type"] }]
+    [[("denom", .str "bnb"), ("type", .str "a")], [("denom", .str "bnb"), ("type", .str "b")]]
+    [[("denom", .str "bnb"), ("type", .str "a")], [("denom", .str "EVIL"), ("type", .str "z")]] = false := by decide
 
 /-- A parameter (subspace, key) for which the permission lists no `AllowedParamsChange` is refused,
     whatever else the proposal contains and whatever the documents are. -/
